@@ -666,8 +666,8 @@ Proof.
     rewrite (namespace_list_rel _ _ _ _ _ (r_gr _ _ _ HR) H).
     destruct (namespace_list st (sp_file sp) a) as [[ns|]| | |]; cbn [rel_res]; auto; unfold access_k.
     + apply (sim_ns_member G ns i i' sp H3 H2 st st' HR).
-    + revert st st' HR. fold (sim G G1 Re (v <- assign_r fl f a ;; ret (EBlobAccess v (i_name i) (i_span i)))
-                                     (v <- assign_r fl f a' ;; ret (EBlobAccess v (i_name i') (i_span i')))).
+    + revert st st' HR. fold (sim G G Re (v <- assign_r fl f a ;; ret (EBlobAccess v (i_name i) (i_span i)))
+                                    (v <- assign_r fl f a' ;; ret (EBlobAccess v (i_name i') (i_span i')))).
       eapply sim_bind; [apply IHa; eassumption|]. intros x x' Hx. apply sim_ret. unfold Re in *. cbn. congruence.
   - (* AAccess, certainly a field access *)
     intros st st' HR. rewrite !assign_access_eq. unfold namespace_list.
@@ -690,6 +690,106 @@ Proof.
     eapply sim_bind; [apply IHe; eassumption|]. intros y y' Hy.
     apply sim_ret. unfold Re in *. cbn. congruence.
   - (* AExpression *) cbn [assign_r]. apply IHe. assumption.
+Qed.
+
+Lemma fields_r_rel G st st' fs fs' :
+  R G st st' -> Forall2 (fun x x' => fst x = fst x' /\ alpha_ty G (snd x) (snd x')) fs fs' ->
+  fields_r st' fs' = fields_r st fs.
+Proof.
+  intros HR H. induction H as [|[i t] [i' t'] l l' [Hi Ht] _ IH]; [reflexivity|].
+  cbn in Hi, Ht. subst i'. cbn [fields_r]. rewrite IH. rewrite (ty_rel _ _ _ _ _ HR Ht). reflexivity.
+Qed.
+
+Lemma sim_fields G fs fs' :
+  Forall2 (fun x x' => fst x = fst x' /\ alpha_ty G (snd x) (snd x')) fs fs' ->
+  sim G G eq (fields_m fs) (fields_m fs').
+Proof.
+  intros H. unfold fields_m. apply sim_lift; [|reflexivity]. intros st st' HR.
+  rewrite (fields_r_rel _ _ _ _ _ HR H). reflexivity.
+Qed.
+
+Lemma sim_lookup G x x' sp :
+  ctx_var G x x' = true -> sim G G eq (lift (fun st => lookup st x sp)) (lift (fun st => lookup st x' sp)).
+Proof. intros Hc. apply sim_lift; [|reflexivity]. intros st st' HR. eapply lookup_rel; eauto. Qed.
+
+Lemma step_s : Ss (S f).
+Proof.
+  intros G s s' G1 H. destruct H; cbn [stmt_r].
+  - apply sim_ret. reflexivity.
+  - apply sim_ret. reflexivity.
+  - apply sim_ret. reflexivity.
+  - (* PBlobDef *)
+    eapply sim_bind; [apply sim_lookup; eassumption|]. intros v v' <-.
+    eapply sim_bind; [apply sim_fields; eassumption|]. intros x x' <-.
+    apply sim_ret. reflexivity.
+  - (* PEnumDef *)
+    eapply sim_bind; [apply sim_lookup; eassumption|]. intros v v' <-.
+    eapply sim_bind; [apply sim_fields; eassumption|]. intros x x' <-.
+    apply sim_ret. reflexivity.
+  - (* PExternalDefinition *)
+    destruct H as [Hc Hs].
+    eapply sim_bind; [apply sim_lookup; eassumption|]. intros v v' <-.
+    eapply sim_bind; [apply sim_ty; eassumption|]. intros x x' <-.
+    apply sim_ret. unfold Rs. cbn. rewrite Hs. reflexivity.
+  - (* PDefinition, global *)
+    destruct H as [Hg Hs].
+    eapply sim_bind; [apply sim_get_stack|]. intros st0 st0' [[_ A] [_ B]].
+    rewrite (A eq_refl), (B eq_refl).
+    eapply sim_bind with (ra := fun p p' => Re (fst p) (fst p') /\ snd p = snd p').
+    { eapply sim_bind; [apply (sim_push_var [] (mkIdent (stack_begin_name (i_name i)) (i_span i))
+                                           (mkIdent (stack_begin_name (i_name i')) (i_span i')) k); exact Hs|].
+      intros m m' _. cbn [i_name].
+      eapply sim_bind; [apply IHe; eassumption|]. intros y y' Hy.
+      eapply sim_bind; [apply sim_set_stack_nil|]. intros _ _ _.
+      eapply sim_bind; [apply (sim_lookup [] (i_name i) (i_name i') sp); cbn; apply String.eqb_eq; exact Hg|].
+      intros v v' <-. apply sim_ret. cbn. auto. }
+    intros p p' [Hp1 Hp2].
+    eapply sim_bind; [apply sim_ty; eassumption|]. intros x x' <-.
+    apply sim_ret. unfold Rs, Re in *. cbn. rewrite Hs, Hp2. congruence.
+  - (* PDefinition, local function *)
+    eapply sim_bind; [apply sim_get_stack|]. intros st0 st0' [[A _] [B _]].
+    destruct st0 as [|e0 st0]; [exfalso; apply H; apply A; reflexivity|].
+    destruct st0' as [|e0' st0']; [exfalso; apply H; apply B; reflexivity|].
+    rewrite H0, H1.
+    eapply sim_bind with (ra := fun p p' => Re (fst p) (fst p') /\ snd p = snd p').
+    { eapply sim_bind; [apply sim_push_var; eassumption|]. intros v v' <-.
+      eapply sim_bind; [apply IHe; eassumption|]. intros y y' Hy. apply sim_ret. cbn. auto. }
+    intros p p' [Hp1 Hp2].
+    eapply sim_bind; [apply sim_ty; eassumption|]. intros x x' <-.
+    apply sim_ret. unfold Rs, Re, id_bind in *. cbn. rewrite H2, Hp2. congruence.
+  - (* PDefinition, local value *)
+    eapply sim_bind; [apply sim_get_stack|]. intros st0 st0' [[A _] [B _]].
+    destruct st0 as [|e0 st0]; [exfalso; apply H; apply A; reflexivity|].
+    destruct st0' as [|e0' st0']; [exfalso; apply H; apply B; reflexivity|].
+    rewrite H0, H1.
+    eapply sim_bind with (ra := fun p p' => Re (fst p) (fst p') /\ snd p = snd p').
+    { eapply sim_bind; [apply IHe; eassumption|]. intros y y' Hy.
+      eapply sim_bind; [apply sim_push_var; eassumption|]. intros v v' <-. apply sim_ret. cbn. auto. }
+    intros p p' [Hp1 Hp2].
+    eapply sim_bind; [apply sim_ty; eassumption|]. intros x x' <-.
+    apply sim_ret. unfold Rs, Re, id_bind in *. cbn. rewrite H2, Hp2. congruence.
+  - (* PAssignment *)
+    eapply sim_bind; [apply IHe; eassumption|]. intros y y' Hy.
+    eapply sim_bind; [apply IHa; eassumption|]. intros x x' Hx.
+    apply sim_ret. unfold Rs, Re in *. cbn. congruence.
+  - (* PLoop *)
+    eapply sim_bind; [apply IHe; eassumption|]. intros y y' Hy.
+    eapply sim_bind; [apply IHs; eassumption|]. intros x x' Hx.
+    apply sim_ret. unfold Rs, Re in *. cbn. destruct x, x'; cbn in Hx; try discriminate; cbn; congruence.
+  - apply sim_ret. reflexivity.
+  - apply sim_ret. reflexivity.
+  - (* PRet *)
+    eapply sim_bind; [apply sim_optM_e; eassumption|]. intros y y' Hy.
+    apply sim_ret. unfold Rs. cbn. congruence.
+  - (* PBlock *)
+    eapply sim_bind; [apply sim_stack_len|]. intros n n' [<- ->].
+    eapply sim_bind; [apply sim_blocks; eassumption|]. intros y y' Hy.
+    eapply sim_bind; [apply sim_truncate|]. intros _ _ _.
+    apply sim_ret. unfold Rs, Rl in *. cbn. congruence.
+  - (* PStatementExpression *)
+    eapply sim_bind; [apply IHe; eassumption|]. intros y y' Hy.
+    apply sim_ret. unfold Rs, Re in *. cbn. congruence.
+  - apply sim_ret. reflexivity.
 Qed.
 
 End Step.
